@@ -376,7 +376,8 @@ pub fn observe(entries: &[(String, bool)], glob: &GlobRt, fed: BTreeSet<String>,
     }
     // "because a glob's component cannot match it": a fed directory whose own name is rejected by
     // the plain component at its position must be discarded as a tree — nothing beneath it is fed
-    // (enforced by C13 only; C16 and C20 take the pruning as observed)
+    // (enforced by C13 and by C20 — a fault beneath such a directory is not one the walk meets;
+    // C16 takes the pruning as observed)
     for (rel, is_dir) in entries {
         if enforce_component_discard && *is_dir && fed.contains(rel) {
             if let Some(j) = component_cannot_match(glob, rel) {
